@@ -35,7 +35,7 @@ CONSTANTS Header,                \* lines of module prologue before "def render_
 VARIABLES pl,     \* PythonPrinter.lineno
           sm,     \* PythonPrinter.source_map: set of <<module line, template line>>
           em,     \* emitted lines that can raise: set of [ml, home]
-          q       \* <<pass, entry position, event index>> of the next visit; <<0,0>> before the prologue
+          q       \* <<pass, entry position, event index>> of the next visit
 lmvars == <<vars, pl, sm, em, q>>
 
 Keys(m) == {p[1] : p \in m}
@@ -61,7 +61,10 @@ Visit(e, L, P, M, Em) ==
          [pl |-> P + 3, sm |-> SS(M, P, l), em |-> Em \cup {[ml |-> P, home |-> l], [ml |-> P + 2, home |-> l]}]
     [] e.k = "ctlendloop" ->  \* finally: / loop = __M_loop._exit()
          [pl |-> P + 2, sm |-> M, em |-> Em]
-    [] e.k = "code" ->     \* write_indented_block(text, starting_lineno): one map entry per line
+    [] e.k \in {"code", "modcode"} ->
+         \* write_indented_block(text, starting_lineno): one map entry per line.  "modcode" is a <%! %> block:
+         \* write_module_code makes ONE call PER BLOCK, each with its own block's line (a template may hold several
+         \* <%! %> blocks with other constructs between them)
          LET RECURSIVE blk(_, _)
              blk(j, m) == IF j = e.n THEN m ELSE blk(j + 1, SS(m, P + j, l + j))
          IN [pl |-> P + e.n, sm |-> blk(0, M),
@@ -82,7 +85,7 @@ Visit(e, L, P, M, Em) ==
          [pl |-> P + 5, sm |-> M, em |-> Em]
     [] OTHER -> [pl |-> P, sm |-> M, em |-> Em]
 
-LMInit == Init /\ pl = Header + 1 /\ sm = {} /\ em = {} /\ q = <<0, 0>>
+LMInit == Init /\ pl = Header + 1 /\ sm = {} /\ em = {} /\ q = <<0, 1, 1>>
 Build == /\ phase \in {"build", "tail"}
          /\ \/ \E e \in Good : AddPre(e)
             \/ \E e \in Faulty : Plant(e)
@@ -91,21 +94,24 @@ Build == /\ phase \in {"build", "tail"}
          /\ UNCHANGED <<pl, sm, em, q>>
 \* The visits are made function by function, as _GenerateRenderMethod does: pass 1 = render_body
 \* (events with fn = 0), pass 2 = the def / block functions (fn > 0), each in document order.
-Prologue == /\ phase = "lex" /\ q = <<0, 0>>
+\* pass 0 = the module-level code (events of kind "modcode": every <%! %> block, in document order, written by
+\* write_toplevel before any function), then the prologue of render_body
+InPass(e, p) == (p = 0 /\ e.k = "modcode") \/ (p = 1 /\ e.fn = 0 /\ e.k # "modcode") \/ (p = 2 /\ e.fn > 0)
+Prologue == /\ phase = "lex" /\ q[1] = 0 /\ q[2] > Len(tpl)
             /\ sm' = SS(sm, pl, 0) /\ pl' = pl + 3 /\ q' = <<1, 1, 1>>     \* def render_body / push_frame / try:
             /\ UNCHANGED <<vars, em>>
-Emit1 == /\ phase = "lex" /\ Len(q) = 3 /\ q[2] <= Len(tpl)
+Emit1 == /\ phase = "lex" /\ q[2] <= Len(tpl)
          /\ LET evs == Cat[tpl[q[2]]].ev IN
             IF q[3] > Len(evs) THEN /\ q' = <<q[1], q[2] + 1, 1>> /\ UNCHANGED <<pl, sm, em>>
-            ELSE IF (evs[q[3]].fn = 0) # (q[1] = 1) THEN /\ q' = <<q[1], q[2], q[3] + 1>> /\ UNCHANGED <<pl, sm, em>>
+            ELSE IF ~InPass(evs[q[3]], q[1]) THEN /\ q' = <<q[1], q[2], q[3] + 1>> /\ UNCHANGED <<pl, sm, em>>
             ELSE LET r == Visit(evs[q[3]], LineOf(tpl, q[2]), pl, sm, em) IN
                  /\ pl' = r.pl /\ sm' = r.sm /\ em' = r.em /\ q' = <<q[1], q[2], q[3] + 1>>
          /\ UNCHANGED vars
 \* end of render_body: return '' / finally: / pop_frame, two blank lines; then the functions
-NextPass == /\ phase = "lex" /\ Len(q) = 3 /\ q[1] = 1 /\ q[2] > Len(tpl)
+NextPass == /\ phase = "lex" /\ q[1] = 1 /\ q[2] > Len(tpl)
             /\ pl' = pl + 5 /\ q' = <<2, 1, 1>> /\ UNCHANGED <<vars, sm, em>>
 \* write_metadata_struct: source_map[lineno] = max(source_map)  (the sentinel closing the map)
-Metadata == /\ phase = "lex" /\ Len(q) = 3 /\ q[1] = 2 /\ q[2] > Len(tpl)
+Metadata == /\ phase = "lex" /\ q[1] = 2 /\ q[2] > Len(tpl)
             /\ sm' = (IF pl \in Keys(sm) THEN sm ELSE sm \cup {<<pl, MaxKey(sm)>>})
             /\ phase' = "done"
             /\ UNCHANGED <<tpl, nlk, fpos, k, lineno, cb, report, route, pl, em, q>>
